@@ -22,6 +22,7 @@ of the direct run or stops at a call that is not in the table — `replay_interp
 builds the table of the answers a run asked for.
 -/
 import TrustfallModel.Proofs.Replay
+import TrustfallModel.Proofs.ReplayInterp
 
 namespace TF.C15
 open TF.Replay
@@ -191,6 +192,57 @@ example : (play scripted (readerEnv { ops := recorded.ops.eraseIdx 4 }) 100).sta
 
 end trustfall
 
+/-! ### (c) the list-level interpreter -/
+
+section interp
+open TF.Engine
+
+/-- The interpreter is monotone in the adapter: with an adapter `A` each of whose answers is the
+answer of `B` or the failure "not in the trace", the run yields what it yields with `B`, or stops at
+a call that is not in the trace.  (No function of the interpreter recovers from a panic.) -/
+theorem interp_monotone {A B : Adapter} (env : Env) (hAB : Below A B) (ir : IRQuery) :
+    Le (interpret (env.withAdapter A) ir) (interpret (env.withAdapter B) ir) :=
+  interpret_le env hAB ir
+
+/-- `replay_interp`: interpreting with the memoising replay adapter built from a table of recorded
+answers — every entry the real adapter's answer to that call (`Truthful`), and the replay not
+stopping at a call outside the table — gives exactly the result of interpreting with the real
+adapter: the same rows in the same order, or the same panic. -/
+theorem replay_interp (env : Env) (T : Table) (ir : IRQuery) (hT : Truthful T env.adapter)
+    (hcomplete : isMissing (replay env T ir) = false) :
+    interpret (env.withAdapter (replayAdapter T)) ir = interpret env ir :=
+  replay_eq env T hT ir hcomplete
+
+/-- … and without the completeness assumption: the same result, or a stop at a missing call —
+never different rows. -/
+theorem replay_interp_or_missing (env : Env) (T : Table) (ir : IRQuery)
+    (hT : Truthful T env.adapter) :
+    replay env T ir = interpret env ir ∨ isMissing (replay env T ir) = true := by
+  rcases replay_le env T hT ir with h | h
+  · exact Or.inl h
+  · exact Or.inr (isMissing_of_miss h)
+
+/-- The table `record` builds (the answers the run asked for, gathered by re-running against the
+table so far and asking the real adapter for the one call the run stopped at) is truthful. -/
+theorem record_truthful (env : Env) (ir : IRQuery) (fuel : Nat) :
+    Truthful (record env ir fuel []).1 env.adapter :=
+  (record_spec env ir fuel [] (truthful_nil _)).1
+
+/-- When `record` reports that its table is complete, replaying from that table alone reproduces
+the direct run. -/
+theorem replay_recorded (env : Env) (ir : IRQuery) (fuel : Nat)
+    (h : (record env ir fuel []).2 = true) :
+    replay env (record env ir fuel []).1 ir = interpret env ir := by
+  obtain ⟨hT, hc⟩ := record_spec env ir fuel [] (truthful_nil _)
+  exact replay_eq env _ hT ir (hc h)
+
+/-- The replay does not consult the data source: it is the same whatever adapter the environment
+carries. -/
+theorem replay_ignores_source (env : Env) (X : Adapter) (T : Table) (ir : IRQuery) :
+    replay (env.withAdapter X) T ir = replay env T ir := rfl
+
+end interp
+
 end TF.C15
 
 #print axioms TF.C15.tap_transparent
@@ -200,3 +252,9 @@ end TF.C15
 #print axioms TF.C15.record_then_replay
 #print axioms TF.C15.serialize_irrelevant
 #print axioms TF.C15.tapEnv_transparent
+#print axioms TF.C15.interp_monotone
+#print axioms TF.C15.replay_interp
+#print axioms TF.C15.replay_interp_or_missing
+#print axioms TF.C15.record_truthful
+#print axioms TF.C15.replay_recorded
+#print axioms TF.C15.replay_ignores_source
